@@ -32,6 +32,10 @@
                  'condition on the encoding); with a CR/LF-only segment delimiter the name has a non-CR/LF '
                  'byte',
                  'the input (after ignore_crlf stripping, if configured) is edi_encode of the segments, '
-                 'hence ends with a segment delimiter (what follows the last one is dropped: DESIGN section '
-                 '6 F8, property C05)',
-                 'segment delimiter non-empty (schema minLength 1)']}
+                 'hence ends with a segment delimiter; in general what follows the last terminator is '
+                 'dropped (edi_trailing_refuted = DESIGN section 6 F8; edi_tokens_cover accounts for every '
+                 'other byte of every input; edi_tokens_complete holds under the guard "the input is a '
+                 'sequence of terminated segments")',
+                 'segment delimiter non-empty (schema minLength 1)',
+                 'edi_tokens_cover / edi_tokens_complete / strip_crlf_spec need no cfg_ok: any configuration '
+                 'with non-empty segment and element delimiters']}
